@@ -29,7 +29,7 @@ theorem reindex_length (s r c : Nat) (as : List BAtom) : (reindex s r c as).leng
   | nil => rfl
   | cons a rest ih => simp [reindex, ih]
 
-theorem place_length (s r c : Nat) (as : List BAtom) : (place s r c as).length = as.length := by
+theorem place_length (s r base c : Nat) (as : List BAtom) : (place s r base c as).length = as.length := by
   induction as generalizing s with
   | nil => rfl
   | cons a rest ih => simp [place, ih]
@@ -43,7 +43,7 @@ theorem reindex_nodes (s r c : Nat) (as : List BAtom) :
 /-- adding the offsets read off the previous atom is numbering by the residue id, as long as the resids
 inside the block start at 1 -/
 theorem reindex_eq_place (s r c : Nat) (as : List BAtom) (h : ∀ a ∈ as, 1 ≤ a.resid) :
-    reindex s r c as = place s (r + 1) c as := by
+    reindex s r c as = place s (r + 1) 1 c as := by
   induction as generalizing s with
   | nil => rfl
   | cons a rest ih =>
@@ -208,6 +208,13 @@ theorem multiRes_single (b : Block) (h : SingleBlock b) : b.multiRes = false := 
     intro x hx
     rw [hone x (by simp [hb, hx]), hone a (by simp [hb])]
 
+theorem blockBase_single (b : Block) (h : SingleBlock b) : blockBase b = 1 := by
+  obtain ⟨hne, hone⟩ := h
+  unfold blockBase
+  cases hb : b.atoms with
+  | nil => rfl
+  | cons a rest => exact hone a (by simp [hb])
+
 theorem single_getLast (b : Block) (h : SingleBlock b) : ∃ la, b.atoms.getLast? = some la ∧ la.resid = 1 := by
   obtain ⟨hne, hone⟩ := h
   refine ⟨b.atoms.getLast hne, List.getLast?_eq_some_getLast hne, hone _ (List.getLast_mem hne)⟩
@@ -265,7 +272,7 @@ theorem addBlocksFrom_regular (ff : FF) (t : Tables κ) :
       exact hrun
     · rw [hatoms]
       simp only [hmerge, specGo, hfi, Option.getD_none, hb, Option.isSome_none, List.length_append,
-        reindex_length, List.append_assoc, hnres, lastCg_of_getLast b la hla]
+        reindex_length, List.append_assoc, hnres, lastCg_of_getLast b la hla, blockBase_single b hs]
       rw [reindex_eq_place _ _ _ _ (fun a ha => by rw [hs.2 a ha]; exact Nat.le_refl 1)]
       simp [Nat.add_comm]
     · rw [hixns]
@@ -273,14 +280,14 @@ theorem addBlocksFrom_regular (ff : FF) (t : Tables κ) :
         reindex_length, List.append_assoc, lastCg_of_getLast b la hla]
       simp [Nat.add_comm]
 
-theorem place_nodes (s r c : Nat) (as : List BAtom) :
-    (place s r c as).map (·.node) = List.range' s as.length := by
+theorem place_nodes (s r base c : Nat) (as : List BAtom) :
+    (place s r base c as).map (·.node) = List.range' s as.length := by
   induction as generalizing s with
   | nil => rfl
   | cons a rest ih => simp [place, ih, List.range'_succ]
 
-theorem place_getLast (s r c : Nat) (as : List BAtom) (a : BAtom) (h : as.getLast? = some a) :
-    (place s r c as).getLast? = some ⟨s + (as.length - 1), r + (a.resid - 1), a.cgrp + c, a.attrs⟩ := by
+theorem place_getLast (s r base c : Nat) (as : List BAtom) (a : BAtom) (h : as.getLast? = some a) :
+    (place s r base c as).getLast? = some ⟨s + (as.length - 1), r + (a.resid - base), a.cgrp + c, a.attrs⟩ := by
   induction as generalizing s with
   | nil => simp at h
   | cons b rest ih =>
@@ -299,7 +306,7 @@ theorem place_getLast (s r c : Nat) (as : List BAtom) (a : BAtom) (h : as.getLas
       omega
 
 theorem reindex_setResid (s R : Nat) (as : List BAtom) (h : ∀ a ∈ as, a.resid = 1) :
-    (reindex s 0 0 as).map (fun a => { a with resid := R }) = place s R 0 as := by
+    (reindex s 0 0 as).map (fun a => { a with resid := R }) = place s R 1 0 as := by
   induction as generalizing s with
   | nil => rfl
   | cons a rest ih =>
@@ -311,16 +318,16 @@ theorem reindex_setResid (s R : Nat) (as : List BAtom) (h : ∀ a ∈ as, a.resi
 theorem firstNode_regular (ff : FF) (t : Tables κ) (n : ResNode κ) (b : Block)
     (hfi : n.fromItp = none) (htbl : assocGet? t.blockOf n.key = some n.resname)
     (hb : ff.block? n.resname = some b) (hs : SingleBlock b) :
-    firstNode ff t n = .ok ⟨⟨place 0 n.resid 0 b.atoms, b.ixns.map (shiftIxn 0)⟩,
+    firstNode ff t n = .ok ⟨⟨place 0 n.resid 1 0 b.atoms, b.ixns.map (shiftIxn 0)⟩,
       [(n.key, (reindex 0 0 0 b.atoms).map (·.node))], [], []⟩ := by
   simp [firstNode, htbl, hb, hfi, multiRes_single b hs, toMolecule, reindex_setResid 0 n.resid b.atoms hs.2]
 
 theorem good_first (b : Block) (R : Nat) (hR : R ≠ 0) (la : BAtom) (hla : b.atoms.getLast? = some la)
     (hla1 : la.resid = 1) (ixns : List Ixn) :
-    Good ⟨place 0 R 0 b.atoms, ixns⟩ R la.cgrp := by
+    Good ⟨place 0 R 1 0 b.atoms, ixns⟩ R la.cgrp := by
   refine ⟨?_, ?_, hR⟩
   · simp [place_nodes, place_length, List.range_eq_range']
-  · refine ⟨_, place_getLast 0 R 0 b.atoms la hla, ?_, ?_⟩ <;> simp [hla1]
+  · refine ⟨_, place_getLast 0 R 1 0 b.atoms la hla, ?_, ?_⟩ <;> simp [hla1]
 
 /-- `add_blocks` on a resid-sorted list of regular residues with contiguous resids from `start ≥ 1` -/
 theorem addBlocksSorted_regular (ff : FF) (t : Tables κ) (rs : List (ResNode κ)) (start : Nat)
@@ -340,19 +347,19 @@ theorem addBlocksSorted_regular (ff : FF) (t : Tables κ) (rs : List (ResNode κ
       have := congrArg List.tail hres
       simpa [List.range'_succ] using this
     have hfirst := firstNode_regular ff t n b hfi htbl hb hs
-    have g0 : Good (⟨place 0 n.resid 0 b.atoms, b.ixns.map (shiftIxn 0)⟩ : Mol) start la.cgrp := by
+    have g0 : Good (⟨place 0 n.resid 1 0 b.atoms, b.ixns.map (shiftIxn 0)⟩ : Mol) start la.cgrp := by
       rw [hnres]
       exact good_first b start (by omega) la hla hla1 _
     obtain ⟨st', hrun, _, hatoms, hixns⟩ :=
       addBlocksFrom_regular ff t rest
-        ⟨⟨place 0 n.resid 0 b.atoms, b.ixns.map (shiftIxn 0)⟩,
+        ⟨⟨place 0 n.resid 1 0 b.atoms, b.ixns.map (shiftIxn 0)⟩,
           [(n.key, (reindex 0 0 0 b.atoms).map (·.node))], [], []⟩ start la.cgrp g0 rfl
         (fun m hm => hreg m (by simp [hm])) hrest
     refine ⟨st', ?_, ?_, ?_⟩
     · simp only [addBlocksSorted, hfirst]
       exact hrun
     · rw [hatoms]
-      simp [specGo, hfi, hb, place_length, lastCg_of_getLast b la hla]
+      simp [specGo, hfi, hb, place_length, lastCg_of_getLast b la hla, blockBase_single b hs]
     · rw [hixns]
       simp [specGo, hfi, hb, place_length, lastCg_of_getLast b la hla]
 
@@ -951,7 +958,7 @@ def segNodes (segs : List (Seg κ)) : List (ResNode κ) := segs.flatMap Seg.node
 /-- a multi-residue block: not empty, resids inside the block start at 1 and the last atom carries the
 number of residues (resids `1 .. nres` in order) -/
 def MultiBlock (b : Block) : Prop :=
-  (∀ a ∈ b.atoms, 1 ≤ a.resid) ∧ ∃ la, b.atoms.getLast? = some la ∧ la.resid = b.nres
+  blockBase b = 1 ∧ (∀ a ∈ b.atoms, 1 ≤ a.resid) ∧ ∃ la, b.atoms.getLast? = some la ∧ la.resid = b.nres
 
 /-- the bookkeeping `match_nodes_to_blocks` must have produced for one copy: the copy is fragment `f`,
 the fragment lists exactly the copy's nodes, every node of the copy points at fragment `f` -/
@@ -1042,7 +1049,7 @@ theorem addBlocksFrom_multiSeg (ff : FF) (t : Tables κ) (st : St κ) (r c : Nat
       st'.mol = (mergeMolecule st.mol b).1 ∧ st'.added = st.added ++ (n.key :: others.map (·.key)) ∧
       st'.corrs.length = st.corrs.length + 1 := by
   obtain ⟨bn, b, hfi, hb, hmb, hlen, htbl, hf, hfr, hoth⟩ := hseg
-  obtain ⟨hres1, la, hla, hlares⟩ := hmb
+  obtain ⟨hbase, hres1, la, hla, hlares⟩ := hmb
   have hstep := stepNode_multiFirst ff t st n bn b st.corrs.length _ hnot hfi htbl hb hf hfr
   obtain ⟨st', hrun, h1, h2, h3⟩ := addBlocksFrom_added ff t st.corrs.length (mergeMolecule st.mol b).2 others
     ⟨(mergeMolecule st.mol b).1,
@@ -1051,7 +1058,7 @@ theorem addBlocksFrom_multiSeg (ff : FF) (t : Tables κ) (st : St κ) (r c : Nat
     (fun o ho => ⟨by simp only [List.mem_append, List.mem_cons, List.mem_map]
                      exact Or.inr (Or.inr ⟨o, ho, rfl⟩), hoth o ho⟩)
     (by simp)
-  refine ⟨st', bn, b, la, hfi, hb, ⟨hres1, la, hla, hlares⟩, hlen, hla, hlares, ?_, h1, h2, ?_⟩
+  refine ⟨st', bn, b, la, hfi, hb, ⟨hbase, hres1, la, hla, hlares⟩, hlen, hla, hlares, ?_, h1, h2, ?_⟩
   · simp only [addBlocksFrom, hstep]
     exact hrun
   · rw [h3]; simp
@@ -1106,7 +1113,7 @@ theorem addBlocksFrom_segs (ff : FF) (t : Tables κ) :
         exact hrun
       · rw [hatoms]
         simp only [hmerge, specGo, hfi, Option.getD_none, hb, Option.isSome_none, List.length_append,
-          reindex_length, List.append_assoc, hnres, lastCg_of_getLast b la hla, segNodes]
+          reindex_length, List.append_assoc, hnres, lastCg_of_getLast b la hla, segNodes, blockBase_single b hs]
         rw [reindex_eq_place _ _ _ _ (fun a ha => by rw [hs.2 a ha]; exact Nat.le_refl 1)]
         simp [Nat.add_comm]
       · rw [hixns]
@@ -1170,8 +1177,9 @@ theorem addBlocksFrom_segs (ff : FF) (t : Tables κ) :
           (List.flatMap Seg.nodes rest)
         have hk : b.nres - 1 = others.length := by omega
         simp only [hmerge, specGo, hfi, Option.getD_some, hb, Option.isSome_some, if_true, List.length_append,
-          reindex_length, List.append_assoc, hnres, lastCg_of_getLast b la hla, segNodes, List.cons_append, hk]
-        rw [reindex_eq_place _ _ _ _ hmb.1]
+          reindex_length, List.append_assoc, hnres, lastCg_of_getLast b la hla, segNodes, List.cons_append, hk,
+          hmb.1]
+        rw [reindex_eq_place _ _ _ _ hmb.2.1]
         rw [lastCg_of_getLast b la hla] at hskip
         rw [hskip]
         simp [Nat.add_comm]
@@ -1227,12 +1235,12 @@ theorem addBlocksSorted_segs (ff : FF) (t : Tables κ) (segs : List (Seg κ)) (s
         have := congrArg List.tail hres
         simpa [List.range'_succ] using this
       have hfirstN := firstNode_regular ff t n b hfi htbl hb hs
-      have g0 : Good (⟨place 0 n.resid 0 b.atoms, b.ixns.map (shiftIxn 0)⟩ : Mol) start la.cgrp := by
+      have g0 : Good (⟨place 0 n.resid 1 0 b.atoms, b.ixns.map (shiftIxn 0)⟩ : Mol) start la.cgrp := by
         rw [hnres]
         exact good_first b start (by omega) la hla hla1 _
       obtain ⟨st', hrun, hatoms, hixns⟩ :=
         addBlocksFrom_segs ff t rest
-          ⟨⟨place 0 n.resid 0 b.atoms, b.ixns.map (shiftIxn 0)⟩,
+          ⟨⟨place 0 n.resid 1 0 b.atoms, b.ixns.map (shiftIxn 0)⟩,
             [(n.key, (reindex 0 0 0 b.atoms).map (·.node))], [], []⟩ start la.cgrp g0
           (fun _ _ => by simp)
           (by simpa [segNodes] using (List.nodup_cons.mp hnd).2) hokrest
@@ -1241,7 +1249,7 @@ theorem addBlocksSorted_segs (ff : FF) (t : Tables κ) (segs : List (Seg κ)) (s
       · simp only [addBlocksSorted, hfirstN]
         exact hrun
       · rw [hatoms]
-        simp [specGo, hfi, hb, place_length, lastCg_of_getLast b la hla, segNodes]
+        simp [specGo, hfi, hb, place_length, lastCg_of_getLast b la hla, segNodes, blockBase_single b hs]
       · rw [hixns]
         simp [specGo, hfi, hb, place_length, lastCg_of_getLast b la hla, segNodes]
     | multi n others =>
@@ -1249,7 +1257,7 @@ theorem addBlocksSorted_segs (ff : FF) (t : Tables κ) (segs : List (Seg κ)) (s
       subst hs1
       simp only [segNodes, List.flatMap_cons, Seg.nodes] at hnd hres ⊢
       obtain ⟨⟨bn, b, hfi, hb, hmb, hlen, htbl, hf, hfr, hoth⟩, hokrest⟩ := hok
-      obtain ⟨hres1, la, hla, hlares⟩ := hmb
+      obtain ⟨hbase, hres1, la, hla, hlares⟩ := hmb
       have hfirstN := firstNode_multi ff t n bn b 0 _ hfi htbl hb hf hfr
       have hnres : n.resid = 1 := by
         have := congrArg List.head? hres
@@ -1301,7 +1309,7 @@ theorem addBlocksSorted_segs (ff : FF) (t : Tables κ) (segs : List (Seg κ)) (s
         have hskip := specGo_skip ff (0 + b.atoms.length) (0 + lastCg b) others (List.flatMap Seg.nodes rest)
         have hk : b.nres - 1 = others.length := by omega
         simp only [specGo, hfi, Option.getD_some, hb, Option.isSome_some, if_true, List.cons_append, hk, hnres,
-          toMolecule, reindex_length, segNodes]
+          toMolecule, reindex_length, segNodes, hbase]
         rw [reindex_eq_place 0 0 0 _ hres1, hskip, lastCg_of_getLast b la hla]
         simp
       · rw [hixns, hmol1]
@@ -1782,5 +1790,43 @@ theorem applyLinks_perm (m : Mol) (ops ops' : List LinkOp) (genExcl : List Ixn) 
   have hk : ∀ k, k ∈ (insertedIxns ops).map keyOf ↔ k ∈ (insertedIxns ops').map keyOf :=
     fun k => (hpi.map keyOf).mem_iff
   rw [hpi.mem_iff, hk]
+
+/-! ## concrete data for the non-vacuity examples of the property files -/
+
+namespace Example
+
+def gly : Block := ⟨"GLY", 1,
+  [⟨1, 1, [("atomname", "BB"), ("atype", "P1"), ("resname", "GLY"), ("charge", "0.5"), ("mass", "72.0")]⟩,
+   ⟨1, 2, [("atomname", "SC1"), ("atype", "C1"), ("resname", "GLY"), ("charge", "-0.5")]⟩],
+  [⟨"bonds", [0, 1], ["1", "0.3", "5000"], []⟩]⟩
+
+def ala : Block := ⟨"ALA", 1,
+  [⟨1, 1, [("atomname", "BB"), ("atype", "P2"), ("resname", "ALA"), ("charge", "0.0")]⟩], []⟩
+
+/-- a two-residue block (residues R1, R2), used through `from_itp` -/
+def mr : Block := ⟨"MR", 1,
+  [⟨1, 1, [("atomname", "a"), ("resname", "R1")]⟩, ⟨1, 1, [("atomname", "b"), ("resname", "R1")]⟩,
+   ⟨2, 2, [("atomname", "a"), ("resname", "R2")]⟩],
+  [⟨"bonds", [0, 1], ["1", "0.1", "1"], []⟩, ⟨"bonds", [1, 2], ["1", "0.1", "1"], []⟩]⟩
+
+def nter : Modif := ⟨"N-ter", [("BB", [("atype", "Q5"), ("charge", "1.0")])], []⟩
+
+def ff : FF := ⟨[gly, ala, mr], [nter]⟩
+
+/-- three residues inserted out of order, keys 10/3/5, resids 8/7/9 -/
+def nodes : List (ResNode Nat) := [⟨10, 8, "ALA", none⟩, ⟨3, 7, "GLY", none⟩, ⟨5, 9, "GLY", none⟩]
+
+def tbl : Tables Nat := ⟨[(3, "GLY"), (10, "ALA"), (5, "GLY")], [], []⟩
+
+/-- two copies of the two-residue block on node keys 28..31 followed by a regular residue -/
+def nodes2 : List (ResNode Nat) :=
+  [⟨30, 3, "R1", some "MR"⟩, ⟨28, 1, "R1", some "MR"⟩, ⟨32, 5, "ALA", none⟩, ⟨31, 4, "R2", some "MR"⟩,
+   ⟨29, 2, "R2", some "MR"⟩]
+
+def tbl2 : Tables Nat :=
+  ⟨[(32, "ALA"), (28, "MR"), (29, "MR"), (30, "MR"), (31, "MR")], [(28, 0), (29, 0), (30, 1), (31, 1)],
+   [[28, 29], [30, 31]]⟩
+
+end Example
 
 end PolyplyVerif.Proofs.MapToMol
